@@ -249,6 +249,11 @@ func (c *Context) ask(system bool, recipient vivid.ActorRef, message vivid.Messa
 		c.system.removeFuture(agentRef)
 	})
 	c.system.appendFuture(agentRef, futureIns)
+	// 定时器在 NewFuture 内即已启动：超时极短、或当前协程恰在此间被长时间挂起时，它可能先于上面的登记触发，
+	// 其注销随之落空，登记将永久残留。此时由这里补一次注销（重复注销无副作用）。
+	if futureIns.Closed() {
+		c.system.removeFuture(agentRef)
+	}
 
 	envelop := mailbox.NewEnvelop(system, agentRef.ref, recipient, message)
 	receiverMailbox := c.system.findMailbox(recipient.(*Ref))
